@@ -88,9 +88,11 @@ def e2e_cases(run):
     lines += gen_block.e2e_small_and_large(r, 12 if quick else 300)
     lines += gen_block.e2e_mtu(r)
     bodies = [("b1", 40, 0, 0, 1), ("b2", 40, 0, 0, 1), ("b1", 33, 0, 1, 1), ("b2", 48, 0, 1, 0)]
-    lines += gen_block.e2e_sched_exhaustive(r, ".x2", 5 if quick else 9, bodies[:2 if quick else 4])
-    lines += gen_block.e2e_sched_exhaustive(r, ".xrh", 4 if quick else 7, bodies[2:])
-    lines += gen_block.e2e_sched_random(r, 1500 if quick else 40000)
+    lines += gen_block.e2e_sched_exhaustive(r, ".x2", 5 if quick else 8, bodies[:2])
+    lines += gen_block.e2e_sched_exhaustive(r, ".xrh", 4 if quick else 6, bodies[2:])
+    lines += gen_block.e2e_sched_random(r, 1500 if quick else 12000)
+    lines += gen_block.e2e_two_uploads(r, 300 if quick else 6000)
+    lines += gen_block.e2e_slow(r, 60 if quick else 1500)
     return lines
 
 
@@ -116,7 +118,7 @@ def e2e(run, model):
     nbad = 0
     # correspondence: the wire traffic and the receivers' decisions against the extracted model
     mlines, mexp = [], []
-    tie_max = 4200 if run.tier == "quick" else 20000
+    tie_max = 4200 if run.tier == "quick" else 9000
     for ln, out in zip(lines, outs):
         case = blk_e2e.Case(ln)
         if case.len > tie_max:
@@ -128,6 +130,28 @@ def e2e(run, model):
         if rcv:
             mlines.append(rcv)
             mexp.append((ln, "recv", obs))
+    # timers: the client-side state must live exactly as long as the timed model says
+    tlines, texp = [], []
+    for ln, out in zip(lines, outs):
+        case = blk_e2e.Case(ln)
+        tl, obs = blk_e2e.timer_line(case, out)
+        if tl:
+            tlines.append(tl)
+            texp.append((ln, obs))
+    tout, _ = vlib.run_lines_robust(model, tlines, timeout=600)
+    nt = 0
+    for tl, (ln, obs), got in zip(tlines, texp, tout):
+        run.hist("e2e_timer", got.split("@")[0])
+        if (got == "alive") != (obs == "alive"):
+            nt += 1
+            if nt <= 2:
+                run.violation("the client-side transfer state was %s although the timed model says %s "
+                              "(state must be kept exactly while the transfer makes progress)" %
+                              ("deleted" if obs != "alive" else "kept", got),
+                              "case: %s\nmodel case: %s\nmodel: %s\nimpl : %s\n" % (ln, tl[:4000], got, obs),
+                              tag="timer%d" % nt)
+    run.cov["e2e_timer_cases"] = len(tlines)
+    run.cov["e2e_timer_disagreements"] = nt
     mout, _ = vlib.run_lines_robust(model, mlines, timeout=1500)
     ntie = 0
     for ml, (ln, kind, exp), got in zip(mlines, mexp, mout):
@@ -151,7 +175,7 @@ def e2e(run, model):
         run.hist("e2e_sched", "lossless" if case.lossless() else "faulty")
         run.hist("e2e_len", "0" if case.len == 0 else "<=1024" if case.len <= 1024 else
                  "<=8192" if case.len <= 8192 else ">8192")
-        run.hist("e2e_outcome", "delivered" if (" HS:3:" in out and case.dir == "b1") or
+        run.hist("e2e_outcome", "delivered" if (" HS:3:" in out and case.dir in ("b1", "b11")) or
                  (" HC:69:" in out and case.dir == "b2") else "not-delivered")
         if i % 397 == 5:
             run.sample({"case": ln, "impl": out[:240] + " ..."})
@@ -168,6 +192,91 @@ def e2e(run, model):
     return nbad
 
 
+def peer(run, model):
+    """scripted peer: hostile Block1 / Block2 sequences into the real server / client against
+    the lg_srcv table model (blk_srv_recv) and the ETag + reassembly model (blk_cli_recv)"""
+    drv = vlib.build_driver("h_block_e2e", ["h_block_e2e.c"], wraps=E2E_WRAPS)
+    r = tie.rng_for(run, "c09-peer")
+    quick = run.tier == "quick"
+    cases = []
+    for l in vlib.read_corpus("C09"):
+        if l.startswith("peer "):
+            t = l.split()
+            cases.append((l, "blkpeer %s %s %s %s %s" % (t[1], t[2], t[3], "0" if t[4] == "7" else t[4],
+                                                        " ".join(t[6:]))))
+    ncons = len(cases)
+    cases += gen_block.peer_cases(r, 900 if quick else 12000, 0.0)
+    ncons = len(cases)            # up to here the peer is honest: the oracle applies
+    cases += gen_block.peer_cases(r, 1100 if quick else 20000, 0.35)
+    cases += gen_block.peer_cases(r, 500 if quick else 8000, 0.7)
+    mo, _ = vlib.run_lines_robust(model, [m for d, m in cases], timeout=1500)
+    co, crashes = vlib.run_lines_robust(drv, [d for d, m in cases], timeout=1500)
+    run.cov["peer_driver_crashes"] = len(crashes)
+    nbad = 0
+    nmix = 0
+    for ci, ((d, m), a, b) in enumerate(zip(cases, mo, co)):
+        aa, bb = a.split(), b.split()
+        run.count(d, len(bb) >= 5)
+        if ci < ncons and any(x.endswith(":!") for x in bb):
+            # implementation-only oracle: every block came from an honest sender (each
+            # Request-Tag / ETag has its own body), yet a delivered body is not the body of the
+            # transfer it was delivered for
+            nmix += 1
+            if nmix <= 2:
+                run.violation("a delivered body is not the body of its transfer (blocks of two transfers "
+                              "were mixed, or bytes are wrong)",
+                              "case: %s\nimpl : %s\nmodel: %s\n" % (d, b, a), tag="peermix%d" % nmix)
+        run.hist("peer_dir", d.split()[1])
+        for x in bb:
+            run.hist("peer_outcome", x[0])
+        # "D?": the model delivered storage that was never written (a hole that the inconsistent
+        # peer left): the content cannot be compared, the decision can
+        same = len(aa) == len(bb) and all(x == y or (x == "D?" and y.startswith("D:")) for x, y in zip(aa, bb))
+        if not same:
+            nbad += 1
+            if nbad <= 3:
+                what = ("implementation crashes (%s)" % b if b.startswith("CRASH") else
+                        "scripted peer: the receiver's decisions / delivered bytes differ from the model")
+                items = d.split()[6:]
+
+                def still(pref, cand):
+                    if not cand:
+                        return False
+                    t = d.split()
+                    d2 = " ".join(t[:6] + [c[0] for c in cand])
+                    m2 = " ".join(m.split()[:5] + [c[0] for c in cand])
+                    x, _ = vlib.run_lines_robust(model, [m2])
+                    y, _ = vlib.run_lines_robust(drv, [d2])
+                    return x[0] != y[0] and "D?" not in x[0]
+                ops = tie.shrink_ops(None, [[t] for t in items], still, max_steps=120)
+                small = " ".join(d.split()[:6] + [o[0] for o in ops]) if ops else d
+                run.violation(what, "case: %s\nmodel case: %s\nmodel: %s\nimpl : %s\n(shrunk: %s)\n" %
+                              (d, m, a, b, small), tag="peer%d" % nbad, no_input=True)
+    run.cov["peer_cases"] = len(cases)
+    run.cov["peer_honest_cases"] = ncons
+    run.cov["peer_mixed_deliveries"] = nmix
+    run.cov["peer_disagreements"] = nbad
+
+
+def sanitized(run):
+    """thorough tier: the end-to-end and scripted-peer traffic once more with libcoap and the
+    driver compiled with ASan + UBSan (a memory error in the block code aborts the driver)"""
+    drv = vlib.build_driver("h_block_e2e", ["h_block_e2e.c"], variant="asan", wraps=E2E_WRAPS)
+    r = tie.rng_for(run, "c09-asan")
+    lines = [l for l in vlib.read_corpus("C09") if l.startswith(("e2e ", "peer "))]
+    lines += gen_block.e2e_boundary(r)
+    lines += gen_block.e2e_sched_random(r, 3000)
+    lines += [d for d, m in gen_block.peer_cases(r, 4000, 0.5)]
+    outs, crashes = vlib.run_lines_robust(drv, lines, timeout=1500,
+                                          env={"ASAN_OPTIONS": "detect_leaks=1:abort_on_error=0",
+                                               "UBSAN_OPTIONS": "halt_on_error=1"})
+    run.cov["asan_cases"] = len(lines)
+    run.cov["asan_crashes"] = len(crashes)
+    for (idx, rc, err) in crashes[:3]:
+        run.violation("sanitizer build: the driver aborted (rc=%d)" % rc,
+                      "case: %s\n%s\n" % (lines[idx], err), tag="asan%d" % idx)
+
+
 def main(run):
     run.cov["trusted_base"] = vlib.TRUSTED_COMMON + [
         "model: Block/BlockOpt.v Block/Slices.v Block/RecBlocks.v (transcriptions of the option "
@@ -176,8 +285,27 @@ def main(run):
         "harness/h_block.c includes src/coap_block.c to reach its static helpers"]
     run.assumptions = ["allocation never fails (C18 covers failures)",
                        "UDP sessions: no BERT (SZX 7 refused); Q-Block (RFC 9177) switched off"]
+    import time
+    t0 = time.time()
+    phases = {}
+
+    def mark(name):
+        nonlocal t0
+        phases[name] = round(time.time() - t0, 1)
+        t0 = time.time()
     run.prove()
+    mark("prove")
     model = vlib.build_model()
     drv = vlib.build_driver("h_block", ["h_block.c"])
+    mark("build")
     leaf(run, model, drv)
+    mark("leaf")
     e2e(run, model)
+    mark("e2e")
+    peer(run, model)
+    mark("peer")
+    if run.tier != "quick":
+        sanitized(run)
+        mark("sanitized")
+    run.cov["phase_seconds"] = phases
+    vlib.log("C09 phases: %s" % phases)
